@@ -1,4 +1,4 @@
-(* Executable case checker for C29.
+(* Executable case checker for C29 (the model follows /repo since commit ffec08c98 only).
    Codes: 1 the model's bounding box / viewBox / drawn label or icon position differs from the implementation's;
    2 an input is outside the hypotheses of the theorems (a float given with ceil < floor or ceil > floor + 1,
    a negative stroke width);
@@ -64,7 +64,7 @@ Definition check_case (c : case) : list N :=
   match c with
   | CSkip => []
   | CBBox d bb pad lg root_sw dbl view obs_l obs_i exact in_model has_legend =>
-      flag (negb in_model || rect_eqb (bbox d) bb || rect_eqb (bbox_fixed d) bb) 1
+      flag (negb in_model || rect_eqb (bbox d) bb) 1
       ++ flag (match view with
                | Some v => has_legend || view4_eqb (viewbox bb pad lg root_sw dbl) v
                | None => true end) 1
